@@ -367,7 +367,7 @@ def check(ctx):
                        'move made on a local copy of the position (does not outlive the function)', site=f.loc(n), sample=False)
                 continue
             one_way = f.name in ('engine::Uci::position_command', 'engine::Uci::moves_command') or \
-                f.rel.startswith('tools/regression')
+                f.rel.startswith('tools/regression') or _only_called_from_replay(p, f)
             if one_way:
                 ctx.ob('C03.R3.one-way-replay', '%s:%s' % (short(f.name), objk), True,
                        'game replay: moves are intentionally not taken back', site=f.loc(n), sample=False)
@@ -549,6 +549,29 @@ def _inverse(dev, uev, v=None):
         if st.get(sq_, EMPTY) != init.get(sq_, EMPTY):
             return False, 'square %s held %s before the move and holds %s after taking it back' % (sq_, init.get(sq_, EMPTY), st.get(sq_, EMPTY))
     return True, '%d squares' % len(st)
+
+
+def _only_called_from_replay(p, f):
+    """a helper (absent from the reference tree) every caller of which is a replay handler or such a helper itself"""
+    if not p.is_new_function(f):
+        return False
+    seen, todo = set(), [f]
+    while todo:
+        g = todo.pop()
+        if g.id in seen:
+            continue
+        seen.add(g.id)
+        callers = [h for h, call in p.callers_of(g.name)]
+        if not callers:
+            return False
+        for h in callers:
+            if h.name in ('engine::Uci::position_command', 'engine::Uci::moves_command'):
+                continue
+            if p.is_new_function(h):
+                todo.append(h)
+            else:
+                return False
+    return True
 
 
 def _saved_restored(p, dfn, ufn, cm, fld):
